@@ -580,3 +580,31 @@ func init() {
 			return false, ""
 		})
 }
+
+func init() {
+	registerKF("f30-requeued-merge-result-applied-again", "C01,C09",
+		"a merged string/record value of another length is re-queued at the end of the transaction buffer; when the buffer's last section belonged to the same block and had not been applied yet, the column's own pass read the re-queued value there and applied it AFTER the later operations of that section: merge@5 'a'; store in another block; merge@5 'b' => the row read \"_a\" instead of \"_ab\"",
+		func() (bool, string) {
+			c := column.NewCollection(column.Options{Vacuum: 24 * 3600 * 1e9})
+			defer c.Close()
+			c.CreateColumn("s", column.ForString(column.WithMerge(func(v, d string) string { return v + d })))
+			c.Query(func(txn *column.Txn) error {
+				for i := 0; i < 16390; i++ {
+					txn.Insert(func(r column.Row) error { r.SetString("s", "_"); return nil })
+				}
+				return nil
+			})
+			c.Query(func(txn *column.Txn) error {
+				txn.QueryAt(5, func(r column.Row) error { r.MergeString("s", "a"); return nil })
+				txn.QueryAt(16385, func(r column.Row) error { r.MergeString("s", "x"); return nil })
+				txn.QueryAt(5, func(r column.Row) error { r.MergeString("s", "b"); return nil })
+				return nil
+			})
+			var got string
+			c.QueryAt(5, func(r column.Row) error { got, _ = r.String("s"); return nil })
+			if got != "_ab" {
+				return true, fmt.Sprintf("txn[merge@5 \"a\"; merge@16385 \"x\"; merge@5 \"b\"] on rows holding \"_\" with a concatenating merge: row 5 reads %q, want \"_ab\"", got)
+			}
+			return false, ""
+		})
+}
